@@ -141,6 +141,15 @@ pub fn order_grammar(max: usize) -> (Grammar, usize) {
     for p in [PreOp::Not, PreOp::Tis] {
         g.add(X, 1, vec![X], Box::new(move |mut v| E::Pre(p, b(v.remove(0)))));
     }
+    // operators that test nothing but end an operand / arm with a different last instruction: a comparison, an
+    // equality, an arithmetic operation (what follows a block must not depend on how the block ends)
+    for o in [BinOp::Lt, BinOp::Eq, BinOp::Add] {
+        g.add(X, 1, vec![X, X], Box::new(move |mut v| {
+            let l = v.remove(0);
+            let r = v.remove(0);
+            E::Bin(o, b(l), b(r))
+        }));
+    }
     for k in [CondKind::IfTrue, CondKind::IfFalse] {
         g.add(X, 1, vec![X, X], Box::new(move |mut v| {
             let c = v.remove(0);
@@ -183,6 +192,55 @@ pub fn order_grammar(max: usize) -> (Grammar, usize) {
     (g, X)
 }
 
+
+// ---- (c) block endings: what follows a block must not depend on the block's last instruction --------------
+
+/// every operator of the core language applied to fresh leaves, as the LAST thing a block evaluates, in every kind
+/// of block the builder closes with a normalising or joining instruction: the right operand of && / ||, directly
+/// and behind a conditional with else (then-arm and default), and the arms of a conditional
+pub fn ending_programs() -> &'static Vec<E> {
+    static P: OnceLock<Vec<E>> = OnceLock::new();
+    P.get_or_init(|| {
+        let leaf = || E::Ident("?".into());
+        let mut lasts: Vec<E> = vec![];
+        for o in crate::corpus::core_bin() {
+            if matches!(o, BinOp::Semi | BinOp::Apply | BinOp::ApplyTo) {
+                continue;
+            }
+            lasts.push(E::Bin(o, b(leaf()), b(leaf())));
+        }
+        for p in crate::corpus::all_pre() {
+            lasts.push(E::Pre(p, b(leaf())));
+        }
+        for sfx in [SufOp::RightInt, SufOp::LenInt] {
+            lasts.push(E::Suf(sfx, b(leaf())));
+        }
+        lasts.push(E::SpaceList(vec![leaf(), leaf()]));
+        lasts.push(E::Prop(b(leaf()), "a".into()));
+        lasts.push(E::Group(b(leaf())));
+        lasts.push(E::Int(12));
+        lasts.push(E::True);
+        let mut out = vec![];
+        for last in &lasts {
+            let cond = |k: CondKind, c: E, a: E, d: Option<E>| E::Cond(vec![(k, c, a)], d.map(b));
+            for o in [BinOp::And, BinOp::Or] {
+                out.push(E::Bin(o, b(leaf()), b(last.clone())));
+                out.push(E::Bin(o, b(last.clone()), b(leaf())));
+                out.push(E::Bin(o, b(leaf()), b(cond(CondKind::IfTrue, leaf(), leaf(), Some(last.clone())))));
+                out.push(E::Bin(o, b(leaf()), b(cond(CondKind::IfTrue, leaf(), last.clone(), Some(leaf())))));
+                out.push(E::Bin(o, b(leaf()), b(cond(CondKind::IfFalse, leaf(), last.clone(), None))));
+                out.push(E::Bin(o, b(leaf()), b(E::Bin(if o == BinOp::And { BinOp::Or } else { BinOp::And }, b(leaf()), b(last.clone())))));
+            }
+            out.push(cond(CondKind::IfTrue, leaf(), last.clone(), Some(leaf())));
+            out.push(cond(CondKind::IfTrue, leaf(), leaf(), Some(last.clone())));
+            out.push(cond(CondKind::IfFalse, last.clone(), leaf(), Some(leaf())));
+            out.push(E::Pre(PreOp::Not, b(cond(CondKind::IfTrue, leaf(), leaf(), Some(last.clone())))));
+            out.push(E::Bin(BinOp::Xor, b(leaf()), b(cond(CondKind::IfTrue, leaf(), leaf(), Some(last.clone())))));
+        }
+        out
+    })
+}
+
 struct Order {
     g: Grammar,
     nt: usize,
@@ -214,7 +272,12 @@ pub fn name_leaves(e: &mut E, next: &mut usize) {
             name_leaves(l, next);
             name_leaves(r, next);
         }
-        E::Pre(_, x) | E::Group(x) => name_leaves(x, next),
+        E::Pre(_, x) | E::Group(x) | E::Suf(_, x) | E::Prop(x, _) => name_leaves(x, next),
+        E::SpaceList(items) | E::CommaList(items) => {
+            for i in items {
+                name_leaves(i, next);
+            }
+        }
         E::Cond(arms, d) => {
             for (_, c, a) in arms {
                 name_leaves(c, next);
@@ -225,6 +288,16 @@ pub fn name_leaves(e: &mut E, next: &mut usize) {
             }
         }
         _ => {}
+    }
+}
+
+/// order programs first, then the block-ending family
+fn order_program(tier: Tier, i: u64) -> E {
+    let o = order(tier);
+    if i < o.total {
+        o.g.nth(o.nt, i as u128)
+    } else {
+        ending_programs()[(i - o.total) as usize].clone()
     }
 }
 
@@ -289,15 +362,14 @@ impl Property for C10 {
         "exploration"
     }
     fn size(&self, tier: Tier) -> u64 {
-        representatives().len() as u64 + order(tier).total
+        representatives().len() as u64 + order(tier).total + ending_programs().len() as u64
     }
     fn describe(&self, tier: Tier, idx: u64) -> String {
         let nr = representatives().len() as u64;
         if idx < nr {
             format!("truth row {}", representatives()[idx as usize].0)
         } else {
-            let o = order(tier);
-            let mut e = o.g.nth(o.nt, (idx - nr) as u128);
+            let mut e = order_program(tier, idx - nr);
             let mut n = 0;
             name_leaves(&mut e, &mut n);
             format!("order: {}", print(&e).unwrap_or_default())
@@ -313,8 +385,7 @@ impl Property for C10 {
             cx.sample(json!({"truth_row": representatives()[idx as usize].0, "constructs": constructs().iter().map(|c| c.1).collect::<Vec<_>>()}));
             return;
         }
-        let o = order(tier);
-        let mut e = o.g.nth(o.nt, (idx - nr) as u128);
+        let mut e = order_program(tier, idx - nr);
         let mut leaves = 0;
         name_leaves(&mut e, &mut leaves);
         if leaves > 10 {
@@ -356,7 +427,7 @@ impl Property for C10 {
     }
     fn meta(&self, tier: Tier) -> Meta {
         Meta {
-            rule: format!("(a) {} representative values covering all 19 value types (empty and non-empty, zero, NaN, pair/list/concatenation of falses, the text \"$!\") as the tested value x {} testing programs over ?> !> && || ^^ !! ?? in both operand positions x both implementations: false iff unit or $!, boolean results only; (b) every derivation of the grammar {{&&, ||, ^^, !!, ??, ?>, !>, with default, two- and three-arm else-chains}} with up to {} AST nodes ({} programs) whose leaves are distinct identifiers, under every truthy/falsy assignment (truthy: number or text, falsy: $! or unit), recording host: the sequence of resolve callbacks and the final value equal the reference evaluator's. Non-trivial: a passing truth cell / an order program; distinct by (implementation, value, construct) / enumeration index.", representatives().len(), constructs().len(), tier.pick(7, 9), order(tier).total),
+            rule: format!("(a) {} representative values covering all 19 value types (empty and non-empty, zero, NaN, pair/list/concatenation of falses, the text \"$!\") as the tested value x {} testing programs over ?> !> && || ^^ !! ?? in both operand positions x both implementations: false iff unit or $!, boolean results only; (b) every derivation of the grammar {{&&, ||, ^^, !!, ??, ?>, !>, with default, two- and three-arm else-chains, plus the non-testing operators <, ==, + as operands and arms}} with up to {} AST nodes ({} programs) whose leaves are distinct identifiers, under every truthy/falsy assignment (truthy: number or text, falsy: $! or unit), recording host: the sequence of resolve callbacks and the final value equal the reference evaluator's. (c) block endings: every core operator applied to fresh identifiers as the last thing evaluated by the right operand of && / || (directly, nested in the other logical operator, and in either arm of a conditional inside it), by a conditional's arms and condition, and under ! and ^^ ({} programs), same oracle. Non-trivial: a passing truth cell / an order program; distinct by (implementation, value, construct) / enumeration index.", representatives().len(), constructs().len(), tier.pick(7, 9), order(tier).total, ending_programs().len()),
             assumptions: vec![
                 "what was evaluated is observed through the host's resolve callback (one identifier per leaf)".into(),
                 "a run that fails after its call log matched (else-chain without default and no match - recorded under C01/C06) is counted, not reported here".into(),
